@@ -19,6 +19,7 @@ func init() {
 				{Harness: "c01.types", Mode: "plain", Shards: 16, Deadline: tiered(tier, 0, 0)},
 				{Harness: "enc.fatal", Mode: "plain", Shards: 4, MaxRSS: 2048},
 				{Harness: "c01.floats", Mode: "plain", Shards: 16},
+				{Harness: "c01.windows", Mode: "plain", Shards: 2},
 			}
 		},
 	})
